@@ -12,15 +12,17 @@ adjoint) and `H̃ = U† H U`.  Instances proved here:
     homomorphism between series in possibly different numbers of variables): order `φ m` of the outputs of the re-indexed problem is order `m` of the original,
     orders outside the image of `φ` vanish.  Instances: `C13_power_substitution` (`λ ↦ λ^r`: `m ↦ r·m`) and `C13_pad` (a vanishing extra parameter:
     `m ↦ (m, 0)`) — "only relabels orders".
-Merging two parameters (`(a, b) ↦ a + b`, not injective: order `n` is the SUM over `n₁ + n₂ = n`) is a ring homomorphism of the same kind whose instance is NOT yet
-proved in Lean (re-indexing of double sums) — for it this property rests on the generic transport theorem plus the correspondence: `harness/covar_corr.py` checks all five
-relations (and the C15 ones) between pairs of real runs, `harness/format_corr.py` and `harness/taylor_corr.py` the key / symbol-order / Taylor bookkeeping of the input
-normalisation.  PARTIAL in that sense; the full statement is the property text.
+  * `C13_fibred`: the same for additive maps with *finite fibres* that need not be injective — order `n` of the push-forward is the sum over the fibre; instance
+    `C13_merge`: giving two perturbations the same parameter yields at order `n` the sum of the two-parameter results over `n₁ + n₂ = n`.
+All five relations of the property are thus theorems about the model (for `U' = U − 1`; `U† = (U)†` and `H̃ = U†HU` follow by C01/C02).  The key / symbol-order /
+Taylor bookkeeping of the input normalisation: `C13_symbols_sorted`, `C13_keys_order_irrelevant`, `C13_list_keys`, `C14_taylor_expansion`; everything is also
+compared between pairs of real runs by `harness/covar_corr.py`, `format_corr.py`, `taylor_corr.py`, `keys_corr.py`.
 -/
 import PymaVerif.Proofs.Covariance2
 import PymaVerif.Proofs.Covariance3
 import PymaVerif.Proofs.CoreU
 import PymaVerif.Proofs.Covariance5
+import PymaVerif.Proofs.Covariance6
 import PymaVerif.Proofs.FormatsThm
 
 namespace Pyma
@@ -59,6 +61,27 @@ theorem C13_reindex (p : Problem K) (k' : ℕ) (ts : List (List ℕ × Mat K)) (
     (hH : (p.reparam k' ts).sr "H" = R.pushS (p.sr "H")) :
     (p.reparam k' ts).sr "U'" = R.pushS (p.sr "U'") :=
   Problem.C13_reindex p k' ts hp hq h2 R hdeg hkept hH
+
+/-- **C13** re-indexing along an additive map with finite fibres: order `n` of the new outputs is the sum over the fibre of `n` -/
+theorem C13_fibred (p : Problem K) (k' : ℕ) (ts : List (List ℕ × Mat K)) (hp : p.Accepted) (hq : (p.reparam k' ts).Accepted) (h2 : (2 : K) ≠ 0)
+    (R : Fibred (Fin p.nparams) (Fin k')) (hdeg : ∀ m, m.degree ≤ (R.φ m).degree)
+    (hkept : ∀ a b : Fin p.d, (p.reparam k' ts).keptE a.val b.val = p.keptE a.val b.val)
+    (hH : (p.reparam k' ts).sr "H" = R.pushS (p.sr "H")) :
+    (p.reparam k' ts).sr "U'" = R.pushS (p.sr "U'") :=
+  Problem.C13_fibred p k' ts hp hq h2 R hdeg hkept hH
+
+/-- **C13** merging: for a two-parameter problem `P₂ = p.reparam 2 ts₂`, giving both perturbations the same parameter (`P₁ = P₂.reparam 1 ts₁` with
+`H₁ = merge H₂`) yields at order `n` the sum of the two-parameter results over `n₁ + n₂ = n`:
+`coeff n (mergeFibred.pushS f) = Σ_{(a, b) : a + b = n} coeff (a, b) f` -/
+theorem C13_merge (p : Problem K) (ts₂ ts₁ : List (List ℕ × Mat K)) (hp : (p.reparam 2 ts₂).Accepted)
+    (hq : ((p.reparam 2 ts₂).reparam 1 ts₁).Accepted) (h2 : (2 : K) ≠ 0)
+    (hkept : ∀ a b : Fin p.d, ((p.reparam 2 ts₂).reparam 1 ts₁).keptE a.val b.val = (p.reparam 2 ts₂).keptE a.val b.val)
+    (hH : ((p.reparam 2 ts₂).reparam 1 ts₁).sr "H" = mergeFibred.pushS ((p.reparam 2 ts₂).sr "H")) :
+    ((p.reparam 2 ts₂).reparam 1 ts₁).sr "U'" = mergeFibred.pushS ((p.reparam 2 ts₂).sr "U'") :=
+  Problem.C13_fibred (p.reparam 2 ts₂) 1 ts₁ hp hq h2 mergeFibred mergeFibred_degree hkept hH
+
+/-- the merging map does not lower the degree (so `C13_fibred` applies to it) -/
+theorem C13_merge_degree (m : Fin 2 →₀ ℕ) : m.degree ≤ (mergeFibred.φ m).degree := mergeFibred_degree m
 
 /-- **C13** substituting `λ ↦ λ^r` only relabels orders: order `r·m` of the new outputs is order `m` of the old ones, all other orders vanish -/
 theorem C13_power_substitution (p : Problem K) (ts : List (List ℕ × Mat K)) (hp : p.Accepted) (hq : (p.reparam p.nparams ts).Accepted)
